@@ -706,9 +706,8 @@ impl Callbacks for Extract {
                         // try anyway below only if the type is scalar and no params are used
                     }
                     let ty = tcx.type_of(did).instantiate_identity().skip_norm_wip();
-                    if generics.requires_monomorphization(tcx) {
-                        continue;
-                    }
+                    // consts of generic impls are evaluated too: const_eval_poly answers TooGeneric (Err) when the
+                    // value really depends on a parameter
                     if let Ok(cv) = tcx.const_eval_poly(did) {
                         if let Some(si) = cv.try_to_scalar_int() {
                             let bits = si.to_bits(si.size());
